@@ -65,7 +65,52 @@ def subharnesses(tier):
                 }
                 subs.append(('%s-D%d-A%d-%s-down%d_up' % (topo, D, A, tag, j),
                              spec))
+    return subs + _loader_subs(tier)
+
+
+def _loader_subs(tier):
+    """The real Loader.reload_server / restore_placement on MemBackend: the
+    server record is edited (new symbolic capacity, up to 2^21 so that relative
+    tolerances would matter) and a servers event is processed."""
+    subs = []
+    stores = [('r0_1', [[0], [1]]), ('r0_n', [[0], []])]
+    if tier == 'thorough':
+        stores.append(('r0_0', [[0], [0]]))
+    for sname, recs in stores:
+        for ev in (['server_edit', 0], ['server_edit', 0, 'shrink']):
+            spec = {'level': 'loader', 'nservers': 2, 'vmax': 2 ** 21,
+                    'apps': [{'recorded': r} for r in recs],
+                    'events': [ev]}
+            subs.append(('loader-%s-%s' % (sname, '_'.join(map(str, ev))),
+                         spec))
     return subs
+
+
+def _loader_harness(S, spec):
+    import z3
+    import g2
+    W = g2.base_store(S, spec)
+    m = g2.new_master(W)
+    g2.start(W, m)
+    for ev in spec['events']:
+        g2.apply_event(W, m, ev)
+        g2.cycle(W, m)
+    S.reach('scheduled')
+    S.reach('server_record_edited')
+    b = W.backend
+    for sname, srv in m.servers.items():
+        declared = b.get('/servers/' + sname)['memory']
+        tot = z3.IntVal(0)
+        for an in srv.apps:
+            tot = tot + S.z(W.demand[an])
+        S.check('C01:oversubscribed_against_declared_capacity',
+                tot <= S.z(declared), {'server': sname})
+        S.check('C01:free_differs_from_declared_capacity_minus_sum',
+                S.z(srv.free_capacity[0]) == S.z(declared) - tot,
+                {'server': sname})
+    Wx = g1.World()
+    Wx.S, Wx.cell, Wx.D = S, m.cell, 3
+    g1.ri1(Wx)
 
 
 def budget(tier, name):
@@ -73,6 +118,8 @@ def budget(tier, name):
 
 
 def harness(S, spec):
+    if spec.get('level') == 'loader':
+        return _loader_harness(S, spec)
     W = g1.build(S, spec)
     g1.ri1(W, ':pre')
     before = g1.snapshot(W)
@@ -102,5 +149,6 @@ META = {
         'Node.check_app_constraints', 'Node.add_node', 'Node.remove_node',
         'Cell.add_app', 'Cell.remove_app', 'SpreadStrategy',
         'PlacementFeasibilityTracker'],
-    'reach_required': ['scheduled', 'eviction_put', 'restored_after_eviction'],
+    'reach_required': ['scheduled', 'eviction_put', 'restored_after_eviction',
+                       'server_record_edited'],
 }
